@@ -11,7 +11,13 @@ kind: D = genuine Wa defect (accepts the program and misbehaves, or aborts on a 
       L = language-level difference WaGo vs current Go (same text, different meaning/acceptance)
       G = generator problem (Go leaves the behaviour open); fixed in the generator, kept as a probe
 """
+import os
 import sys
+
+
+def _defect(name):
+    return open(os.path.join(os.path.dirname(os.path.abspath(__file__)), "..", "corpus", "C01", "defects", name + ".go")).read()
+
 
 FINDINGS = [
     dict(id=1, kind='D', probe='probe:shift_ge_width', known='DESIGN.md section 7',
@@ -372,6 +378,27 @@ func main() {
          root='internal/ssa/builder.go compLit: the array branch assigned the elements with isZero=true although the destination '
               'is existing storage (same code as upstream x/tools go/ssa).',
          safe='not generated before; kept as a probe.'),
+    # 23-26: found while writing the feature-program suite corpus/C01 (programs kept in corpus/C01/defects/)
+    dict(id=23, kind='D', probe='probe:iface_int_int32_identity', program=_defect('iface_int_int32_identity'),
+         title='int and int32 (uint and uint32) are one dynamic type: interface ==, assertions and type switches cannot tell them apart',
+         wa='true / int32 / true', go='false / int / false',
+         root='wir/module.go m.INT = m.I32, m.UINT = m.U32: one back-end value type and one type hash for two front-end types.',
+         safe='feature programs never put int and int32 values into the same interface comparison or type switch.'),
+    dict(id=24, kind='D', probe='probe:iface_holding_nil_pointer', program=_defect('iface_holding_nil_pointer'),
+         title='an interface holding a nil pointer compares == nil; a method call on a nil pointer receiver panics',
+         wa='true / true true / panic: nil pointer dereferenced', go='false / true true / -1 / -1',
+         root='wir/value_interface.go emitEq tests the data word only; ssa emitNilCheck before every method call (deliberate).',
+         safe='feature programs never box nil pointers and never call methods on nil receivers.'),
+    dict(id=25, kind='D', probe='probe:bytes_of_empty_string_is_nil', program=_defect('bytes_of_empty_string_is_nil'),
+         title='[]byte(s) / []rune(s) of an empty non-constant string is nil',
+         wa='0 true / 0 true', go='0 false / 0 false',
+         root='runtime string-to-slice helpers return the zero slice for length 0.',
+         safe='converted slices are never compared with nil.'),
+    dict(id=26, kind='D', probe='probe:named_pointer_type', program=_defect('named_pointer_type'),
+         title='a named type whose underlying type is a pointer (type PP *T) aborts the compiler',
+         wa='compile_type.go:327: Todo:*types.Pointer', go='77',
+         root='compile_type.go typeLib.compile, case *types.Named has no *types.Pointer arm.',
+         safe='not generated.'),
 ]
 
 OTHER_SURFACE_DIFFERENCES = [
